@@ -1,11 +1,21 @@
 (* Wire codec of statement-level programs (harness/props/c02.py is the other side).
-   stmt:  (0 x expr)  (1 x op expr)  (2 (block ...) else)  (3 block)  (4 i block)  (5) | (5 expr)
+   stmt:  (0 x expr)  (1 x op expr)  (2 (block ...) else)  (3 block)  (4 i block)  (5) | (5 expr)  (6 x rhs)
+   rhs:   (0 expr) | (1 target n_expr rhs)                                  a comprehension over range(n)
    block = (stmt ...); else = () | (block)
    item:  (0 stmt)  (1 name ((param ann) ...) retann block)  (2 block);  ann = () | (text) *)
 From Coq Require Import ZArith List Bool.
-From RV Require Import Base.Wire Base.Text Lang.PyAst Lang.PySem Lang.PyAstWire Lang.Infer Lang.InferWire Lang.Decl.
+From RV Require Import Base.Wire Base.Text Lang.PyAst Lang.PySem Lang.PyAstWire Lang.Infer Lang.InferWire Lang.InferComp Lang.Decl.
 Import ListNotations.
 Open Scope Z_scope.
+
+Fixpoint dec_rhs (v : wv) : option rhs :=
+  match v with
+  | WL [WI 0; e] => option_map RPlain (dec_expr e)
+  | WL [WI 1; t; n; r] =>
+      match un_text t, dec_expr n, dec_rhs r with
+      | Some t1, Some nn, Some rr => Some (RComp t1 nn rr) | _, _, _ => None end
+  | _ => None
+  end.
 
 Fixpoint dec_stmt (v : wv) : option stmt :=
   let fix dec_blk (l : list wv) : option block :=
@@ -34,6 +44,8 @@ Fixpoint dec_stmt (v : wv) : option stmt :=
       match un_text i, dec_blk b with Some ii, Some bb => Some (SFor ii bb) | _, _ => None end
   | WL [WI 5] => Some (SReturn None)
   | WL [WI 5; e] => match dec_expr e with Some ee => Some (SReturn (Some ee)) | None => None end
+  | WL [WI 6; x; r] =>
+      match un_text x, dec_rhs r with Some xx, Some rr => Some (SAssignR xx rr) | _, _ => None end
   | _ => None
   end.
 
